@@ -128,7 +128,8 @@ impl GenCtx {
         match D::try_to_usize() {
             Some(n) => D::from_usize(n),
             None => {
-                let n = self.rng.below(self.max_dim + 1);
+                // bounds above 64 mean "exactly this many" (long vector parts: batch and chunk boundaries)
+                let n = if self.max_dim > 64 { self.max_dim } else { self.rng.below(self.max_dim + 1) };
                 self.dims.push(n);
                 D::from_usize(n)
             }
